@@ -207,11 +207,30 @@ func (e *Env) evalIdent(name string) V {
 		e.fail("result used outside a postcondition")
 	}
 	if e.frame != nil {
+		// inside old(...): a local variable (not a parameter) is not part of the entry heap -
+		// also when it lives in a cell because a closure captures it; it denotes its current
+		// value at the point the clause is evaluated
+		if e.oldFrom != nil && e.frame.fn != nil {
+			isParam := false
+			for _, p := range e.frame.fn.Params {
+				if p.Name() == name {
+					isParam = true
+				}
+			}
+			for _, fv := range e.frame.fn.FreeVars {
+				if fv.Name() == name {
+					isParam = true
+				}
+			}
+			if !isParam {
+				if v, ok := x.lookupLocal(e.frame, name, e.oldFrom.point, e.oldFrom.cur); ok {
+					return v
+				}
+			}
+		}
 		if v, ok := x.lookupLocal(e.frame, name, e.point, e.cur); ok {
 			return v
 		}
-		// inside old(...): a local variable (not a parameter) is not part of the heap; it
-		// denotes its current value at the point the clause is evaluated
 		if e.oldFrom != nil {
 			if v, ok := x.lookupLocal(e.frame, name, e.oldFrom.point, e.oldFrom.cur); ok {
 				return v
@@ -526,7 +545,13 @@ func (e *Env) evalBin(n *CBin) V {
 	x := e.x
 	switch n.Op {
 	case "&&":
-		return V{T: boolT, S: and(e.evalBool(n.L), e.evalBool(n.R))}
+		// short circuit: `called("f#k") && retof("f#k")...` when the call was never executed
+		// before this point is false, not a malformed clause
+		l := e.evalBool(n.L)
+		if l == "false" {
+			return V{T: boolT, S: "false"}
+		}
+		return V{T: boolT, S: and(l, e.evalBool(n.R))}
 	case "||":
 		return V{T: boolT, S: or(e.evalBool(n.L), e.evalBool(n.R))}
 	case "==>":
@@ -921,6 +946,26 @@ func (e *Env) evalCall(n *CCall) V {
 			}
 			x.boxFuncs(t)
 			return V{T: boolT, S: fmt.Sprintf("(= (itag %s) %d)", v.S, x.typeID(t))}
+		case "holdsPtr":
+			// holdsPtr(x, T): the interface value x holds a non-nil *T
+			v := e.eval(n.Args[0])
+			t, ok := e.tryType(n.Args[1])
+			if !ok {
+				e.fail("holdsPtr() needs a type as its second argument")
+			}
+			pt := types.NewPointer(t)
+			_, unbox := x.boxFuncs(pt)
+			return V{T: boolT, S: fmt.Sprintf("(and (= (itag %s) %d) (not (= (%s %s) 0)))", v.S, x.typeID(pt), unbox, v.S)}
+		case "ptrIn":
+			// ptrIn(x, T): the *T held by the interface value x (meaningful under holdsPtr(x, T))
+			v := e.eval(n.Args[0])
+			t, ok := e.tryType(n.Args[1])
+			if !ok {
+				e.fail("ptrIn() needs a type as its second argument")
+			}
+			pt := types.NewPointer(t)
+			_, unbox := x.boxFuncs(pt)
+			return V{T: pt, S: "(" + unbox + " " + v.S + ")"}
 		case "heapUnchanged":
 			// heapUnchanged(): every object that existed in the old state has the same
 			// contents now (maps, slices' backing arrays, structs, globals)
@@ -943,7 +988,7 @@ func (e *Env) evalCall(n *CCall) V {
 				if strings.HasPrefix(k, "G:") {
 					conj = append(conj, "(= "+o+" "+en+")")
 				} else {
-					conj = append(conj, fmt.Sprintf("(forall ((fr! Int)) (! (=> (and (>= fr! 0) (<= fr! %s)) (= (select %s fr!) (select %s fr!))) :pattern ((select %s fr!))))", e.old.alloc, o, en, o))
+					conj = append(conj, fmt.Sprintf("(forall ((fr! Int)) (! (=> (and (>= fr! 1) (<= fr! %s)) (= (select %s fr!) (select %s fr!))) :pattern ((select %s fr!))))", e.old.alloc, o, en, o))
 				}
 			}
 			return V{T: boolT, S: and(conj...)}
